@@ -376,9 +376,15 @@ class World:
         """[(id, author, src, dst, state)] oldest first (host view)."""
         out = []
         for item in reversed(self.mock.PullRequest.items):
+            # `state` is what the host shows (the mock turns OPEN into
+            # MERGED lazily when asked)
+            try:
+                state = item.state
+            except Exception:
+                state = item._state
             out.append((item.id, item.author['username'],
                         item.source['branch']['name'],
-                        item.destination['branch']['name'], item._state))
+                        item.destination['branch']['name'], state))
         return out
 
     def comments(self, pr_id):
